@@ -17,9 +17,9 @@ namespace Sema.C17
 
 /-! ### T2 pins -/
 
-example : Gen.FactsC17.targetLimitExpr = "int(float32(sr.Limit)*(1/float32(len(col.ShardIds)))*poissonApproxA + poissonApproxB)" := by decide
+example : Gen.FactsC17.targetLimitExpr = "int(float32(sr.Limit)*(1/float32(len(col.ShardIds)))*1.42 + 10.0)" := by decide
 example : Gen.FactsC17.offsetCond = "len(col.ShardIds) > 1 && sr.Offset%len(col.ShardIds) == 0" := by decide
-example : Gen.FactsC17.offsetAssign = "sr.Offset = sr.Offset / len(col.ShardIds)" := by decide
+example : Gen.FactsC17.offsetAssign = "sr.Offset /= len(col.ShardIds)" := by decide
 example : Gen.FactsC17.cutRule = "len(results) > originalLimit => results = results[:originalLimit]" := by decide
 example : Gen.FactsC17.scoreCmp = "cmp.Compare(b.HybridScore, a.HybridScore)" := by decide
 /-- the merge the model's `searchPoints` / `leScore` / `leKeys` are written against: only with more than one shard;
@@ -37,10 +37,7 @@ round; `rpc.ErrShutdown` evicts the cached client and goes round WITHOUT consumi
 any other call error returns it; an answer returns nil; a time-out records an error; the loop's exit
 returns the recorded error -/
 example : Gen.FactsC17.routeSkeleton =
-    ["for i := 0; i < c.cfg.RpcRetries; i++ {", "retryErr = nil", "c.rpcClient", "if err != nil {", "retryErr = err", "continue", "}",
-     "client.Go", "case <-rpcCall.Done {", "if rpcCall.Error != nil {", "if rpcCall.Error == rpc.ErrShutdown {",
-     "delete(c.rpcClients, destination)", "i--", "continue", "}", "return err", "}", "return nil", "}",
-     "case <-timeout.C {", "retryErr = err", "}", "}", "return retryErr"] := by decide
+    ["for i := 0; i < c.cfg.RpcRetries; i += 1 {", "retryErr = nil", "c.rpcClient", "if err != nil {", "retryErr = err", "continue", "}", "client.Go", "case <-rpcCall.Done {", "if rpcCall.Error != nil {", "if rpcCall.Error == rpc.ErrShutdown {", "delete(c.rpcClients, destination)", "i -= 1", "continue", "}", "return err", "}", "return nil", "}", "case <-timeout.C {", "retryErr = err", "}", "}", "return retryErr"] := by decide
 
 /-! ### curateFailedPoints -/
 
